@@ -328,8 +328,52 @@ def gen_filter_case(rng):
   }
 
 
+def check_view_wiring(ctx, case):
+  """View.form_multimetric_info: the method/params the view stores are those of the generated selector on the request's counts."""
+  import gen_requests as G
+  mm, _snp, _spe = mods()
+  spec = case["spec"]
+  params = G.build_params(spec)
+  G.seed_library(spec)
+  view = G.view_class("gp_ei")(params)
+  info = view.multimetric_info
+  n = len(spec["points"])
+  f = sum(spec["failures"])
+  o = len(spec["pending"])
+  has_thr = any(spec["thresholds"][i] is not None for i in spec["optimized_index"])
+  if not spec["requires_pareto"]:
+    if info.method is not None:
+      ctx.violation("C14 a single-metric request got a multimetric method", {"case": case, "method": info.method})
+    return
+  if ctx.driver is None:
+    return
+  r = ctx.driver.call({"op": "mm", "thr": has_thr, "b": spec["budget"], "n": n, "f": f, "o": o})
+  stage = r["stage"]
+  want = {0: mm.OPTIMIZING_ONE_METRIC, 1: mm.OPTIMIZING_ONE_METRIC, 4: mm.OPTIMIZING_ONE_METRIC, 2: mm.CONVEX_COMBINATION,
+          3: mm.CONVEX_COMBINATION, 5: mm.EPSILON_CONSTRAINT, 6: mm.EPSILON_CONSTRAINT}[stage]
+  ctx.count(f"view wiring: stage {stage}")
+  if info.method != want:
+    ctx.violation(f"C14 View.multimetric_info.method is {info.method} but the phase selector gives stage {stage} ({want}) for the request's counts",
+                  {"case": case, "stage": stage, "counts": [spec["budget"], n, f, o, has_thr]})
+    return
+  if stage in (1, 4, 5):
+    if info.params.optimizing_metric != (n % 2):
+      ctx.violation("C14 View: optimizing metric does not follow the parity of the observation count", {"case": case, "stage": stage})
+      return
+  if stage in (2, 3):
+    w = info.params.weights
+    if len(w) != 2 or not (0.1 - 1e-12 <= w[0] <= 0.9 + 1e-12) or abs(w[0] + w[1] - 1) > 1e-12:
+      ctx.violation("C14 View: convex weights outside [0.1,0.9] or not summing to 1", {"case": case, "weights": list(map(float, w))})
+  if stage in (5, 6) and not (0.1 - 1e-12 <= info.params.epsilon <= 0.9 + 1e-12):
+    ctx.violation("C14 View: epsilon outside [0.1,0.9]", {"case": case})
+
+
 def check_case(ctx, case):
   k = case["kind"]
+  if k == "view":
+    check_view_wiring(ctx, case)
+    ctx.case(key=case["spec"]["np_seed"], nontrivial=True, sample=None)
+    return
   if k == "selectors":
     check_selectors(ctx, case)
     nontriv = case["n"] > 0
@@ -350,7 +394,6 @@ def run(ctx, scale):
     "float-vs-exact agreement of the selectors at thresholds holds for denominators < 1e14 (argued in DESIGN C14, not proved)",
     "weight index int(100*f) vs exact floor may differ by one when 100*f is within rounding of an integer (accepted +-1 step there)",
     "Halton value of the random-spread phase is an oracle in the model (range/sum theorem for every value in [0,1])",
-    "View.form_multimetric_info wiring is exercised by the endpoint checks (C01/C06), not here",
   ]
   rng = ctx.rng
   nsel = (4000 if ctx.tier == "quick" else 150000) * scale
@@ -372,6 +415,13 @@ def run(ctx, scale):
     check_case(ctx, {"kind": "weights", "fraction": f, "np_seed": rng.randint(0, 2 ** 31 - 1)})
     if len(ctx.violations) >= 5:
       return
+  if scale == 1:
+    import gen_requests as G
+    for _ in range(40 if ctx.tier == "quick" else 600):
+      spec = G.gen_request(rng, "gp_ei", layout=rng.choice(["two", "two", "two_constraint", "single"]), n=rng.choice([6, 12, 20]), tasks=0)
+      check_case(ctx, {"kind": "view", "spec": spec})
+      if len(ctx.violations) >= 5:
+        return
   nf = (400 if ctx.tier == "quick" else 8000) * scale
   for _ in range(nf):
     check_case(ctx, gen_filter_case(rng))
